@@ -705,7 +705,8 @@ def Marked (b : Block) (d : Disk) (m : Mem) : Prop := ∀ t ∈ b.txs, d.execute
 theorem insertAB_spec {T : Nat → Option Block} {s : St} {b y : Block} {c : List Block} (ha : s.crashed = false)
     (inv : Inv T s.disk s.mem c) (hp : b.pre = y.hash) (hy : c.head? = some y) (hh : y.height < b.height)
     (hn : s.disk.blocks b.hash = none) (hT : T b.hash = some b) (hfresh : ∀ z ∈ c, ∀ t ∈ b.txs, t ∉ z.txs) :
-    Out (fun d m => Inv T d m (b :: c) ∧ Marked b d m ∧ m.future = s.mem.future ∧ m.verified = s.mem.verified)
+    Out (fun d m => Inv T d m (b :: c) ∧ Marked b d m ∧ m.future = s.mem.future ∧ m.verified = s.mem.verified ∧
+          (∀ t ∈ s.mem.pending, t ∉ b.txs → t ∈ m.pending))
         (fun d => RecTo d c) (insertB (insertA s b) b) := by
   let d0 := s.disk
   let m0 := s.mem
@@ -747,12 +748,13 @@ theorem insertAB_spec {T : Nat → Option Block} {s : St} {b y : Block} {c : Lis
     (Q := fun d m => AddStage d0 c b 5 d ∧ (∀ t ∈ b.txs, d.executed t = some b.hash) ∧ m = { poolMem m0 b with latest := b })
     (fun p => ⟨p.1, p.2.1, by rw [p.2.2]⟩)
   have h10 := h9.write .delAddMark
-    (Q := fun d m => Inv T d m (b :: c) ∧ Marked b d m ∧ m.future = s.mem.future ∧ m.verified = s.mem.verified) ?_ (fun d m p => p.1.recTo)
+    (Q := fun d m => Inv T d m (b :: c) ∧ Marked b d m ∧ m.future = s.mem.future ∧ m.verified = s.mem.verified ∧
+      (∀ t ∈ s.mem.pending, t ∉ b.txs → t ∈ m.pending)) ?_ (fun d m p => p.1.recTo)
   · exact h10
   · intro d m p
     obtain ⟨st, hex, hm⟩ := p
     subst hm
-    refine ⟨⟨st.finish hex, rfl, ?_, ?_, ?_⟩, ?_, rfl, rfl⟩
+    refine ⟨⟨st.finish hex, rfl, ?_, ?_, ?_⟩, ?_, rfl, rfl, ?_⟩
     · intro k z hk
       have hk' : upd m0.top b.height (some b) k = some z := hk
       rcases upd_eq_some hk' with ⟨he, hv⟩ | ⟨hne, hm⟩
@@ -771,5 +773,8 @@ theorem insertAB_spec {T : Nat → Option Block} {s : St} {b y : Block} {c : Lis
       refine ⟨by simpa [Disk.apply] using hex t ht, ?_⟩
       show t ∉ (m0.pending.filter (fun t => !(b.txs.contains t)))
       simp [List.mem_filter, ht]
+    · intro t ht hnb
+      show t ∈ (m0.pending.filter (fun t => !(b.txs.contains t)))
+      simp [List.mem_filter, hnb]; exact ht
 
 end Rangers.Proofs.ChainStore
